@@ -47,6 +47,8 @@ pub struct Config {
     pub rename_fn: Option<String>,
     /// R12: constants extracted as accessor functions; a path `NAME` becomes the call `NAME()`
     pub const_calls: Vec<String>,
+    /// R5 follow-up: type names whose lifetime parameters became unused (all borrowed strings mapped to `Str`)
+    pub strip_lifetimes: Vec<String>,
 }
 
 fn strs(v: &Value) -> Vec<String> {
@@ -82,6 +84,7 @@ impl Config {
             }
             c.add_derives.extend(strs(&src["add_derives"]));
             c.const_calls.extend(strs(&src["const_calls"]));
+            c.strip_lifetimes.extend(strs(&src["strip_lifetimes"]));
             c.keep_derives.extend(strs(&src["keep_derives"]));
         }
         // longest prefix first
@@ -305,8 +308,8 @@ impl<'a> VisitMut for MacroPass<'a> {
     fn visit_stmt_mut(&mut self, s: &mut syn::Stmt) {
         if let syn::Stmt::Macro(m) = s {
             if let Some(new) = self.rewrite_macro(&m.mac) {
-                let semi = m.semi_token.or(Some(Default::default()));
-                *s = syn::Stmt::Expr(new, semi);
+                // a brace-delimited macro in tail position has no semicolon and is the block's value
+                *s = syn::Stmt::Expr(new, m.semi_token);
                 visit_mut::visit_stmt_mut(self, s);
                 return;
             }
@@ -379,6 +382,17 @@ impl<'a> TypeMapPass<'a> {
 impl<'a> VisitMut for TypeMapPass<'a> {
     fn visit_path_mut(&mut self, p: &mut syn::Path) {
         self.drop_generic_args(p);
+        if let Some(last) = p.segments.last_mut() {
+            if self.cfg.strip_lifetimes.iter().any(|n| last.ident == n) {
+                if let syn::PathArguments::AngleBracketed(ab) = &mut last.arguments {
+                    let kept: Vec<syn::GenericArgument> = ab.args.iter().filter(|a| !matches!(a, syn::GenericArgument::Lifetime(_))).cloned().collect();
+                    if kept.len() != ab.args.len() {
+                        bump(self.counts, "R5.strip_lifetime");
+                        if kept.is_empty() { last.arguments = syn::PathArguments::None; } else { ab.args = kept.into_iter().collect(); }
+                    }
+                }
+            }
+        }
         self.map_path(p);
         visit_mut::visit_path_mut(self, p);
     }
@@ -998,6 +1012,34 @@ fn fingerprint(sig: &syn::Signature) -> String {
     format!("({})->{}", parts.join(","), ret)
 }
 
+pub fn apply_to_shell(shell: &mut syn::ItemImpl, cfg: &Config, counts: &mut Counts) {
+    drop_generics_sig(&mut shell.generics, &cfg.drop_generics, counts);
+    {
+        let mut p = TypeMapPass { cfg, counts };
+        p.visit_type_mut(&mut shell.self_ty);
+        if let Some((_, path, _)) = &mut shell.trait_ {
+            p.visit_path_mut(path);
+        }
+    }
+    if cfg.strings {
+        let mut p = StringPass { counts };
+        p.visit_type_mut(&mut shell.self_ty);
+        if let Some((_, path, _)) = &mut shell.trait_ {
+            p.visit_path_mut(path);
+        }
+    }
+    // an impl header whose lifetimes are all gone keeps no generics
+    let self_s = shell.self_ty.to_token_stream().to_string();
+    let kept: Vec<syn::GenericParam> = shell.generics.params.iter().filter(|p| match p {
+        syn::GenericParam::Lifetime(l) => self_s.contains(&l.lifetime.to_string()),
+        _ => true,
+    }).cloned().collect();
+    if kept.len() != shell.generics.params.len() {
+        shell.generics.params = kept.into_iter().collect();
+        if shell.generics.params.is_empty() { shell.generics.lt_token = None; shell.generics.gt_token = None; }
+    }
+}
+
 pub fn apply_to_fn(
     f: &mut syn::ItemFn,
     _shell: Option<&syn::ItemImpl>,
@@ -1075,11 +1117,22 @@ pub fn apply_to_fn(
                 "before_return" => format!("before_return_r_{}", m),
                 "iflet_head" => format!("iflet_head_b_{}", m),
                 "entry" => continue,
+                "before_tail" => continue,
                 other => return Err(format!("bad recipe: unknown anchor kind {}", other)),
             };
             if !p.placed.contains(&key) {
                 return Err(format!("lost anchor: structural anchor {} not found", key));
             }
+        }
+    }
+    if cfg.anchors.iter().any(|(k, _, _)| k == "before_tail") {
+        match f.block.stmts.last() {
+            Some(syn::Stmt::Expr(_, None)) => {
+                let n = f.block.stmts.len();
+                f.block.stmts.insert(n - 1, anchor_stmt("before_tail", "t", 0));
+                info.anchors.push("before_tail_t_0".into());
+            }
+            _ => return Err("lost anchor: function has no tail expression for anchor before_tail".into()),
         }
     }
     if cfg.anchors.iter().any(|(k, _, _)| k == "entry") {
@@ -1135,6 +1188,12 @@ pub fn apply_to_item_and_print(mut it: syn::Item, cfg: &Config, counts: &mut Cou
         syn::Item::Struct(s) => {
             rewrite_attrs(&mut s.attrs, cfg, counts);
             s.vis = publ.clone();
+            if cfg.strip_lifetimes.iter().any(|n| s.ident == n) {
+                let kept: Vec<syn::GenericParam> = s.generics.params.iter().filter(|p| !matches!(p, syn::GenericParam::Lifetime(_))).cloned().collect();
+                s.generics.params = kept.into_iter().collect();
+                if s.generics.params.is_empty() { s.generics.lt_token = None; s.generics.gt_token = None; }
+                bump(counts, "R5.strip_lifetime");
+            }
             drop_generics_sig(&mut s.generics, &cfg.drop_generics, counts);
             for f in s.fields.iter_mut() {
                 f.attrs.clear();
